@@ -169,10 +169,18 @@ class EnvKinds:
         if base is None:
             return None
         subject = unparse(expr)
+        subjects = [subject]
+        d = defs(func.node)
+        for nm, vals in d.values.items():
+            # a local bound once to the very same lookup is another spelling
+            if len(vals) == 1 and vals[0][0] == 'assign' and vals[0][1] is not None and \
+                    unparse(vals[0][1]) == subject and nm not in d.params:
+                subjects.append(nm)
         pi = path_info(func.node)
         kinds = base
         for e, pol in pi.at(node):
-            kinds = self._filter(kinds, func.module, e, pol, subject)
+            for sj in subjects:
+                kinds = self._filter(kinds, func.module, e, pol, sj)
         return kinds
 
     def _base_kinds(self, func, expr, at, depth=0):
